@@ -807,6 +807,63 @@ theorem foldl_applyAdd (msms : Bool) (rows : List XAdd) (tbl : List MassInfo) :
       | none => simp [this]
       | some b => simp
 
+/-! ## CSV import = specification -/
+
+/-- the table `readCsv` delivers for a well-formed file -/
+def tableOf (c : CsvFile) : Table :=
+  { names := c.header.map validName, rows := c.rows.map (fun r => r.filterMap parseDec) }
+
+theorem filterMap_parse_getElem (r : List Name) (h : ∀ f ∈ r, ∃ q, parseDec f = some q) (j : Nat) :
+    (r.filterMap parseDec)[j]? = (r[j]?).bind parseDec := by
+  induction r generalizing j with
+  | nil => simp
+  | cons f fs ih =>
+    obtain ⟨q, hq⟩ := h f (by simp)
+    rw [List.filterMap_cons, hq]
+    cases j with
+    | zero => simp [hq]
+    | succ j' =>
+      simp only [List.getElem?_cons_succ]
+      exact ih (fun g hg => h g (by simp [hg])) j'
+
+theorem csvCols_eq_spec (ncol nscan : Nat) (c : CsvFile) (hparse : ∀ r ∈ c.rows, ∀ f ∈ r, ∃ q, parseDec f = some q)
+    (hwidth : ∀ r ∈ c.rows, r.length = ncol) :
+    csvLineSpec ncol nscan (some c) = some (csvCols ncol nscan (some (tableOf c))) := by
+  unfold csvLineSpec csvCols transpose tableOf
+  simp only
+  apply allSome_map_of_forall
+  intro j hj
+  rw [List.map_map]
+  apply allSome_map_of_forall
+  intro r hr
+  simp only [Function.comp]
+  have hj' : j < r.length := by rw [hwidth r hr]; exact List.mem_range.mp hj
+  have h1 := filterMap_parse_getElem r (hparse r hr) j
+  obtain ⟨q, hq⟩ := hparse r hr r[j] (List.getElem_mem hj')
+  rw [List.getElem?_eq_getElem hj'] at h1 ⊢
+  simp only [Option.bind_some] at h1 ⊢
+  rw [hq] at h1 ⊢
+  simp [List.getD, h1]
+
+theorem filterMap_id_map_option {β γ δ : Type} (l : List β) (g : β → Option γ) (h : γ → δ) :
+    (l.map (fun f => (g f).map h)).filterMap id = (l.filterMap g).map h := by
+  induction l with
+  | nil => rfl
+  | cons f fs ih =>
+    rw [List.map_cons, List.filterMap_cons, List.filterMap_cons]
+    cases g f with
+    | none => simpa using ih
+    | some v => simpa using ih
+
+theorem renameFields_full (t : Name) (rest ns : List Name) (h : ns.length = rest.length) :
+    renameFields (t :: rest) ns = t :: ns := by
+  show t :: (List.range rest.length).map (fun i => (ns[i]?).getD (rest.getD i [])) = t :: ns
+  congr 1
+  apply List.ext_getElem
+  · simp [h]
+  · intro i h1 h2
+    simp [List.getElem?_eq_getElem h2]
+
 /-! ## element names from the method file -/
 
 def elemLe (a b : AcqElement) : Bool := decide (a.mz < b.mz ∨ (a.mz = b.mz ∧ a.selected ≤ b.selected))
